@@ -13,12 +13,18 @@ calls listed above), so that nothing outside the code under test is disturbed.  
 through the tracer is an `io.BufferedRandom/BufferedWriter/BufferedReader` over a `FileIO` subclass that logs
 `(tell(), bytes)` of every raw write: what is recorded is what CPython hands to write(2), *after* buffering.
 
+File identity: a raw write is recorded under the name the file has *at the time of the write*: the tracer follows
+every open raw file across the renames and unlinks it records (a file that was renamed after it was opened is
+written under its new name; writes to a file that has no name any more are recorded as ('write-unlinked', old
+path, offset, bytes) and have no visible effect).  So every prefix of a recorded sequence can be replayed by path.
+
 `replay(ops, directory)` applies a list of recorded operations (or a prefix, or a prefix with a shortened
 last write) to a directory: this rebuilds the state a crash would leave behind.
 """
 import io
 import os as _os
 import shutil
+import weakref
 
 
 class _RawFile(io.FileIO):
@@ -27,7 +33,9 @@ class _RawFile(io.FileIO):
     def __init__(self, tracer, path, name, mode, **kw):
         io.FileIO.__init__(self, name, mode, **kw)
         self._tracer = tracer
-        self._tpath = path
+        self._tpath = tracer.canon(path)      # current name of the file (None once it has no name)
+        self._told = self._tpath
+        tracer.live.add(self)
 
     def write(self, b):
         pos = self.tell()
@@ -35,12 +43,16 @@ class _RawFile(io.FileIO):
         n = io.FileIO.write(self, b)
         if n is None:
             n = 0
-        self._tracer.log(('write', self._tracer.rel(self._tpath), pos, b[:n]))
+        if self._tpath is None:
+            self._tracer.log(('write-unlinked', self._tracer.rel(self._told), pos, b[:n]))
+        else:
+            self._tracer.log(('write', self._tracer.rel(self._tpath), pos, b[:n]))
         return n
 
     def truncate(self, size=None):
         r = io.FileIO.truncate(self, size)
-        self._tracer.log(('truncate', self._tracer.rel(self._tpath), r))
+        if self._tpath is not None:
+            self._tracer.log(('truncate', self._tracer.rel(self._tpath), r))
         return r
 
 
@@ -79,18 +91,22 @@ class _OsProxy(object):
 
     def rename(self, src, dst, **kw):
         _os.rename(src, dst, **kw)
+        self._t.moved(src, dst)
         self._t.log(('rename', self._t.rel(src), self._t.rel(dst)))
 
     def replace(self, src, dst, **kw):
         _os.replace(src, dst, **kw)
+        self._t.moved(src, dst)
         self._t.log(('rename', self._t.rel(src), self._t.rel(dst)))
 
     def unlink(self, path, **kw):
         _os.unlink(path, **kw)
+        self._t.moved(path, None)
         self._t.log(('unlink', self._t.rel(path)))
 
     def remove(self, path, **kw):
         _os.remove(path, **kw)
+        self._t.moved(path, None)
         self._t.log(('unlink', self._t.rel(path)))
 
     def symlink(self, src, dst, **kw):
@@ -117,12 +133,28 @@ class Tracer(object):
         self.fd_paths = {}
         self._patched = []
         self.enabled = True
+        self.live = weakref.WeakSet()      # open raw files, to follow them across rename / unlink
 
     # --- recording
-    def rel(self, path):
-        p = _os.path.abspath(path)
+    def canon(self, path):
+        p = _os.path.abspath(_os.fsdecode(path))
         d, b = _os.path.split(p)
-        p = _os.path.join(_os.path.realpath(d), b)     # do not resolve a final symlink component
+        return _os.path.join(_os.path.realpath(d), b)     # do not resolve a final symlink component
+
+    def moved(self, src, dst):
+        """the directory entry src now is dst (rename) or is gone (dst None): re-name the open files behind it."""
+        src = self.canon(src)
+        dst = None if dst is None else self.canon(dst)
+        for f in list(self.live):
+            if f.closed:
+                continue
+            if dst is not None and f._tpath == dst:
+                f._tpath = None                # the file that was replaced has no name any more
+            elif f._tpath == src:
+                f._tpath = dst
+
+    def rel(self, path):
+        p = self.canon(path)
         if p == self.root:
             return '.'
         if p.startswith(self.root + _os.sep):
@@ -213,6 +245,8 @@ def apply_op(root, op, cut=None):
                 _os.write(fd, data)
         finally:
             _os.close(fd)
+    elif kind == 'write-unlinked':
+        pass
     elif kind == 'truncate':
         _os.truncate(p(op[1]), op[2])
     elif kind == 'rename':
